@@ -4,6 +4,5 @@ CONSTANT MaxChain = 3
 INVARIANT CleanIsFunction
 INVARIANT SameMembers
 INVARIANT OffPathArtefactsSame
-INVARIANT HashOrderArtefactsAre
 INVARIANT Lemmas
 CHECK_DEADLOCK FALSE
